@@ -90,7 +90,7 @@ def _max_batch(n, r0, dr, nswp):
     return r * r * max(n)
 
 
-def h_func_none(ctx, n, r0, nswp, with_e=False, with_vld=False, with_cache=False):
+def h_func_none(ctx, n, r0, nswp, with_e=False, with_vld=False, with_cache=False, dr=(0, 0)):
     """Objective returns None at its k-th call (symbolic k)."""
     k = ctx.integer('k')
     ctx.assume(ctx.ge(k, 1))
@@ -110,7 +110,7 @@ def h_func_none(ctx, n, r0, nswp, with_e=False, with_vld=False, with_cache=False
         kw.update({'I_vld': Iv, 'y_vld': yv})
     cache = {} if with_cache else None
     with stubs_installed(ctx, 'first'):
-        Y = teneva.cross(orc, Y0, nswp=nswp, dr_min=0, dr_max=0, info=info, cache=cache, **kw)
+        Y = teneva.cross(orc, Y0, nswp=nswp, dr_min=dr[0], dr_max=dr[1], info=info, cache=cache, **kw)
     ctx.claim('well_formed_same_shape', well_formed(Y, n))
     ctx.claim('finite', finite(ctx, Y))
     if with_cache:
@@ -123,6 +123,28 @@ def h_func_none(ctx, n, r0, nswp, with_e=False, with_vld=False, with_cache=False
     ctx.claim('stop_func_iff_none_returned', ctx.any_([
         ctx.all_([info['stop'] == 'func', ctx.eq(k, orc.calls)]),
         ctx.all_([info['stop'] in (('nswp', 'e') if with_e else ('nswp',)), ctx.gt(k, orc.calls)])]))
+
+
+def h_budget_kinds(ctx, kind, with_cache):
+    """The budget given as a Python int / float or a NumPy scalar (a length, an
+    element of an integer array, a product of sizes): the same limit in every case."""
+    n = [2, 2]
+    M = 5
+    m = {'int': M, 'float': float(M), 'np.int64': np.int64(M), 'np.int32': np.int32(M), 'np.intp': np.intp(M),
+         'np.float64': np.float64(M), 'array_element': np.array([M, 7])[0]}[kind]
+    orc = Oracle(ctx, fresh=True, n=n)
+    info = {}
+    with stubs_installed(ctx, 'first'):
+        Y = teneva.cross(orc, simple_Y0(n, 1), m=m, nswp=3, dr_min=0, dr_max=0, info=info,
+                         cache=({} if with_cache else None))
+    ctx.claim('well_formed_same_shape', well_formed(Y, n))
+    evaluated = sum(len(B) for B in orc.batches)
+    ctx.claim('budget_respected', evaluated <= M)
+    ctx.claim('info_m_counts_evaluations', info['m'] == evaluated)
+    if not with_cache:
+        # (with a cache a 2 x 2 tensor is exhausted before the budget is)
+        ctx.claim('stopped_by_budget', info['stop'] == 'm')
+    ctx.claim('finite', finite(ctx, Y))
 
 
 def h_callback(ctx, n, r0, nswp):
@@ -279,6 +301,11 @@ def instances(tier):
     out.append({'func': 'h_thresholds', 'params': {'n': [2, 2], 'r0': 1, 'with_vld': True}, 'opts': G})
     out.append({'func': 'h_func_none', 'params': {'n': [2, 2], 'r0': 1, 'nswp': 2, 'with_cache': True}, 'opts': G})
     out.append({'func': 'h_func_none', 'params': {'n': [2, 2, 2], 'r0': 1, 'nswp': 1, 'with_cache': True}, 'opts': G})
+    # ranks still growing in the backward half-sweep when the run is cut (pending factor folded into the neighbour)
+    out.append({'func': 'h_func_none', 'params': {'n': [3, 3], 'r0': 1, 'nswp': 1, 'dr': [1, 1]}, 'opts': G})
+    out.append({'func': 'h_budget', 'params': {'n': [3, 3], 'r0': 1, 'dr': [1, 1], 'nswp': 1, 'with_cache': False}, 'opts': G})
+    for kind in ('int', 'float', 'np.int64', 'np.int32', 'np.intp', 'np.float64', 'array_element'):
+        out.append({'func': 'h_budget_kinds', 'params': {'kind': kind, 'with_cache': kind in ('np.int64', 'float')}, 'opts': G})
     out.append({'func': 'h_missing_criteria', 'params': {'n': [2, 2]}, 'opts': G})
     out.append({'func': 'h_default_info', 'params': {'n': [2, 2], 'r0': 1}, 'opts': G})
     return out
